@@ -85,6 +85,18 @@ CHECKS['C20'] = dict(
               "ast->z3, induction), bounded run-time contract on compute_wp",
     design='4 C20')
 
+CHECKS['C15'] = dict(
+    category='proof',
+    text="Deductive (all CNFs, all assignments): is_solution is proved to decide 'every clause has a literal made "
+         "true by the assignment'; resolution is proved sound on its pivot (and to remove it). The CDCL loop "
+         "(termination, verdict, model, resolution trace) is covered by a bounded stand-in only: exhaustive small "
+         "clause sets and random larger ones against exhaustive search and an independent trace checker.",
+    note="Trusted: pyvc, z3. unit_propagate/analyze_conflict/backtrack (closures over shared mutable state) are "
+         "explored, not proved; Tseitin encoding not covered.",
+    technique="contract-based deductive verification of the pure functions (loop invariants over index-based "
+              "specs, set-level resolution soundness) + bounded run-time contract on solve_cnf",
+    design='4 C15')
+
 NOT_APPLICABLE = {
     'C19': "real-analytic equality of integrals/limits/series with a numeric floating-point oracle; no decidable "
            "function contract (DESIGN 4 C19)",
